@@ -314,3 +314,17 @@ func init() {
 		return o.ref != nil && !o.ref.Empty() && hasFeat(o.feats, "ops>=2")
 	}))
 }
+
+// knownDifferential returns the id of an open finding of the differential scope
+// (listed for C01) whose trigger matches this query/data/window. Engine-against-itself
+// properties consult it before reporting a difference: inside a region where the
+// engine is known to deviate from the reference, its own results need not be
+// deterministic either (e.g. ties created by timestamp() == 0).
+func knownDifferential(c *core.Case, query string, series []core.Series, start, end, step int64) string {
+	kc := *c
+	kc.Prop = "C01"
+	kc.Query = query
+	kc.Series = series
+	kc.Start, kc.End, kc.Step = start, end, step
+	return kf.Match(&kc)
+}
